@@ -1053,29 +1053,29 @@ before `match token.kind {`:
             let ghost start0 = start as int;
             let ghost idx0 = it.index@ as int;
             proof { if !(token.kind == TokenKind::Newline || is_comment_kind(token.kind) || token.kind == TokenKind::Escaped) { lemma_cm_next(t.frags(), tokens@, idx0, lo); } }
-after `t.append_str(&self.input[start..end], start);`#0:
+after `t.append_str(&self.input[start..end], start);`#0 or before `t.append_fragment(TextFragment::soft_break(`:
                     proof { if t.frags().len() > pre.len() { lemma_frags_push(pre, t.frags(), lo, start0, end as int); lemma_cm_push(pre, t.frags(), tokens@, idx0); } else { lemma_frags_weaken(pre, lo, start0, end as int); } }
                     let ghost pre2 = t.frags();
 before `start = token.span.end();`#0:
                     proof { assert(t.frags().drop_last() =~= pre2); lemma_frags_push(pre2, t.frags(), lo, end as int, token.span.e());
                             lemma_cm_push(pre2, t.frags(), tokens@, idx0); lemma_cm_next(t.frags(), tokens@, idx0, lo); }
-after `t.append_str(&self.input[start..end], start);`#1:
+after `T![line comment] | T![block comment] => {<NL>                    t.append_str(&self.input[start..end], start);` or before `start = token.span.end();`#1:
                     proof {
                         if t.frags().len() > pre.len() { lemma_frags_push(pre, t.frags(), lo, start0, token.span.s()); lemma_cm_push(pre, t.frags(), tokens@, idx0); } else { lemma_frags_weaken(pre, lo, start0, token.span.s()); }
                         lemma_cm_next(t.frags(), tokens@, idx0, lo);
                         lemma_frags_weaken(t.frags(), lo, token.span.s(), token.span.e());
                     }
-after `t.append_str(&self.input[start..end], start);`#2:
+after `T![escaped] => {<NL>                    t.append_str(&self.input[start..end], start);` or before `debug_assert!(<NL>                        token.len() >= 1`:
                     proof { if t.frags().len() > pre.len() { lemma_frags_push(pre, t.frags(), lo, start0, token.span.s() + 1); lemma_cm_push(pre, t.frags(), tokens@, idx0); } else { lemma_frags_weaken(pre, lo, start0, token.span.s() + 1); }
                             lemma_cm_next(t.frags(), tokens@, idx0, lo); }
 before `_ => end = token.span.end(),`:
                 // (default arm: the token is not a comment)
-before `t.append_str(&self.input[start..end], start);`#3:
+afterloop 0:
         proof { lemma_mono(tokens@, 0, tokens@.len() - 1); assert(end <= tokens@.last().span.e()); t.lemma_span_order(); }
         let ghost pre = t.frags();
         let ghost lo = tokens@[0].span.s();
         let ghost start0 = start as int;
-after `t.append_str(&self.input[start..end], start);`#3:
+after `<NL>        t.append_str(&self.input[start..end], start);`:
         proof { if t.frags().len() > pre.len() { lemma_frags_push(pre, t.frags(), lo, start0, tokens@.last().span.e()); lemma_cm_push(pre, t.frags(), tokens@, tokens@.len() as int); } else { lemma_frags_weaken(pre, lo, start0, tokens@.last().span.e()); } t.lemma_span_order(); }
 @*/
 /*@ fn src/parser/block_parser.rs BlockParser::capture_slice
